@@ -47,67 +47,6 @@ theorem rename_loop_var (i i' : Sym) (lo hi : Expr) (B : List Stmt) (par : Bool)
 
 /-! ### reorder_loops -/
 
-/-- the effect of the loop body at iteration `(i, j) = (a, b)`, in its own scope -/
-def stepIJ (i j : Sym) (B : List Stmt) (a b : Int) (s : State V) : Except Err (State V) :=
-  (execL ext B ((s.bind i a).bind j b)).map (State.leave s)
-
-/-- the value of a bound that mentions neither configuration state nor `x` is the same under an
-    extra binding of `x` and in any state with the same environment and views -/
-theorem evalC_bound_stable (e : Expr) (x : Sym) (v : Int) (σ s : State V) (c : Int)
-    (hf : e.cfgFree = true) (hx : e.occC x = false) (he : s.env = σ.env) (hv : s.views = σ.views)
-    (h : evalC σ e = .ok c) : evalC (s.bind x v) e = .ok c := by
-  have e1 : s.bind x v = s.withEnv ((x, v) :: s.env) := rfl
-  rw [e1, evalC_env e s _ (fun y hy => by
-    have : y ≠ x := by intro e'; subst e'; rw [hx] at hy; cases hy
-    simp [lookupSym_cons, this])]
-  rw [evalC_cfgFree e σ s hf he hv]
-  exact h
-
-/-- one iteration of the outer loop of a two-deep nest is a run of `stepIJ` over the inner range -/
-theorem nest_outer_step (i j : Sym) (lo2 hi2 : Expr) (B : List Stmt) (par : Bool) (a : Int)
-    (σ s : State V) (l2 h2 : Int) (hl2 : evalC σ lo2 = .ok l2) (hh2 : evalC σ hi2 = .ok h2)
-    (hle : l2 ≤ h2) (fl : lo2.cfgFree = true) (fh : hi2.cfgFree = true)
-    (il : lo2.occC i = false) (ih : hi2.occC i = false)
-    (he : s.env = σ.env) (hv : s.views = σ.views) :
-    loopStep ext i [.loop j lo2 hi2 B par] a s
-      = iterate (fun b => stepIJ ext i j B a b) (h2 - l2).toNat l2 s := by
-  conv => lhs; unfold loopStep
-  rw [execL_singleton,
-      execS_loop ext j lo2 hi2 B par (s.bind i a) l2 h2
-        (evalC_bound_stable lo2 i a σ s l2 fl il he hv hl2)
-        (evalC_bound_stable hi2 i a σ s h2 fh ih he hv hh2) hle]
-  have hinner : ∀ k t, loopStep ext j B k (t.bind i a)
-      = (stepIJ ext i j B a k t).map (fun u => u.bind i a) := by
-    intro k t
-    unfold loopStep stepIJ
-    cases execL ext B ((t.bind i a).bind j k) <;> rfl
-  rw [iterate_map_bind (fun k => stepIJ ext i j B a k) i a _ hinner]
-  cases hit : iterate (fun k => stepIJ ext i j B a k) (h2 - l2).toNat l2 s with
-  | error e => rfl
-  | ok s1 =>
-    have sc := iterate_heapLen _ (fun v t t' ht => by
-      obtain ⟨t2, h2', rfl⟩ := map_leave_ok ht
-      have := (execL_scope ext B ((t.bind i a).bind j v) t2 h2').2.1
-      exact ⟨leave_heap_length t t2 this, rfl, rfl⟩) _ _ _ _ hit
-    simp only [Except.map]
-    rw [leave_bind_of_scope s s1 i a sc.2.1 sc.2.2 sc.1]
-
-/-- binding `i` then `j` or `j` then `i` is the same for the body when `i ≠ j` -/
-theorem stepIJ_swap (i j : Sym) (hij : i ≠ j) (B : List Stmt) (a b : Int) (s : State V) :
-    stepIJ ext j i B b a s = stepIJ ext i j B a b s := by
-  unfold stepIJ
-  have e : (s.bind j b).bind i a = ((s.bind i a).bind j b).withEnv ((i, a) :: (j, b) :: s.env) := rfl
-  rw [e, execL_env ext B ((s.bind i a).bind j b) _ (fun y _ => by
-    simp only [State.bind, lookupSym_cons]
-    by_cases h1 : y = i
-    · subst h1; simp [hij]
-    · by_cases h2 : y = j
-      · subst h2; simp [Ne.symm hij]
-      · simp [h1, h2])]
-  cases execL ext B ((s.bind i a).bind j b) with
-  | error e => rfl
-  | ok s1 => rfl
-
 /-- `reorder_loops`:  `for i in [lo1,hi1): for j in [lo2,hi2): B`  ≈  `for j …: for i …: B`
     when the four bounds read no configuration state, the inner bounds do not mention the outer
     iterator (and vice versa), and iteration `(a, b)` commutes with every iteration `(a', b')`
@@ -159,6 +98,59 @@ theorem reorder_loops (i j : Sym) (hij : i ≠ j) (lo1 hi1 lo2 hi2 : Expr) (B : 
   simp only [Int.add_zero] at left right
   rw [left, right]
   exact iterate_interchange (fun a b => stepIJ ext i j B a b) hc _ _ _ _ σ
+
+/-! ### lift_scope: an `if` out of a loop -/
+
+/-- `for i in [lo,hi): if c: B else: E`  =  `if c: (for i: B) else: (for i: E)`  when the
+    condition reads no configuration state and does not mention `i` (the syntactic guard of
+    `DoLiftScope`), so that it has one value throughout the loop -/
+theorem lift_if_out_of_loop (i : Sym) (lo hi c : Expr) (B E : List Stmt) (par : Bool) (σ : State V)
+    (l h b : Int) (hl : evalC σ lo = .ok l) (hh : evalC σ hi = .ok h) (hle : l ≤ h)
+    (hc : evalC σ c = .ok b) (fc : c.cfgFree = true) (ic : c.occC i = false) :
+    execS ext (.loop i lo hi [.ite c B E] par) σ
+      = execS ext (.ite c [.loop i lo hi B par] [.loop i lo hi E par]) σ := by
+  rw [execS_loop ext i lo hi _ par σ l h hl hh hle]
+  have hstep : ∀ v (s : State V), s.env = σ.env ∧ s.views = σ.views →
+      loopStep ext i [.ite c B E] v s
+        = if b ≠ 0 then loopStep ext i B v s else loopStep ext i E v s := by
+    intro v s hs
+    exact branch_step ext i c B E v s b (evalC_bound_stable c i v σ s b fc ic hs.1 hs.2 hc)
+  simp only [execS, hc, bind, Except.bind]
+  by_cases hb : b = 0
+  · simp only [hb, ne_eq, not_true_eq_false, if_false]
+    rw [execL_singleton, execS_loop ext i lo hi E par σ l h hl hh hle]
+    have key := iterate_eq_of_inv (fun s : State V => s.env = σ.env ∧ s.views = σ.views)
+      (loopStep ext i [.ite c B E]) (loopStep ext i E) 0
+      (fun v s s' hs hstp => by
+        have sc := loopStep_scope ext i E v s s' hstp
+        exact ⟨sc.2.1.trans hs.1, sc.2.2.trans hs.2⟩)
+      (fun v s hs => by rw [hstep v s hs]; simp [hb])
+      (h - l).toNat l σ ⟨rfl, rfl⟩
+    simp only [Int.add_zero] at key
+    rw [key]
+    cases hit : iterate (loopStep ext i E) (h - l).toNat l σ with
+    | error e => rfl
+    | ok s1 =>
+      have sc := iterate_heapLen _ (loopStep_scope ext i E) _ _ _ _ hit
+      simp only [Except.map]
+      rw [leave_of_same_scope σ s1 sc.2.1 sc.2.2 sc.1]
+  · simp only [hb, ne_eq, not_false_eq_true, if_true]
+    rw [execL_singleton, execS_loop ext i lo hi B par σ l h hl hh hle]
+    have key := iterate_eq_of_inv (fun s : State V => s.env = σ.env ∧ s.views = σ.views)
+      (loopStep ext i [.ite c B E]) (loopStep ext i B) 0
+      (fun v s s' hs hstp => by
+        have sc := loopStep_scope ext i B v s s' hstp
+        exact ⟨sc.2.1.trans hs.1, sc.2.2.trans hs.2⟩)
+      (fun v s hs => by rw [hstep v s hs]; simp [hb])
+      (h - l).toNat l σ ⟨rfl, rfl⟩
+    simp only [Int.add_zero] at key
+    rw [key]
+    cases hit : iterate (loopStep ext i B) (h - l).toNat l σ with
+    | error e => rfl
+    | ok s1 =>
+      have sc := iterate_heapLen _ (loopStep_scope ext i B) _ _ _ _ hit
+      simp only [Except.map]
+      rw [leave_of_same_scope σ s1 sc.2.1 sc.2.2 sc.1]
 
 /-! ### shift_loop -/
 
